@@ -176,10 +176,10 @@ def _stored_later(fa, call, target):
 def s5(ck, an):
     fa = an.fa("Broker.context")
     rets = returns_in(fa)
-    if len(rets) != 1 or not isinstance(rets[0].value, ast.Call):
+    c = deref(fa, rets[0].value)[0] if len(rets) == 1 else None
+    if c is None or not isinstance(c, ast.Call):
         ck.fail("ALIAS", "S5.context-fields", fa.f.short, fa.f.loc, "context() does not return a Context(...)", construct="return Context(...)")
         return
-    c = rets[0].value
     ctor = an.prog.func("Context.__init__")
     got = {}
     for i, a in enumerate(c.args):
@@ -302,45 +302,72 @@ def s6(ck, an):
         ck.check(fs.sym.canon(c.args[0]) == "self" if c.args else False, "ARGFLOW", "S6.reward-gets-env", fs.f.short, fs.loc(c), "the reward is computed on this environment", "calculate() is not given self", construct=stmt_text(c))
         st = enclosing_stmt(c)
         rets = returns_in(fs)
-        ok = isinstance(st, ast.Assign) and isinstance(st.targets[0], ast.Name) and all(isinstance(r.value, ast.Tuple) and len(r.value.elts) == 4 and fs.sym.canon(r.value.elts[1]) == fs.sym.canon(c) for r in rets)
+        rts = [deref(fs, r.value) for r in rets]
+        ok = isinstance(st, ast.Assign) and isinstance(st.targets[0], ast.Name) and all(isinstance(rv, ast.Tuple) and len(rv.elts) == 4 and fs.sym.canon(rv.elts[1], rat) == fs.sym.canon(c) for rv, rat in rts)
         ck.check(ok, "ARGFLOW", "S6.reward-returned", fs.f.short, fs.loc(c), "step returns the reward it computed", "the value returned as reward is not the computed reward", construct=stmt_text(c))
 
 
+def _entries_loop(fa):
+    """`for time, entry in self._rebalancing.items()` found by what it ranges over; (loop, time name, entry name)."""
+    for n in walk_function(fa.f.node):
+        if isinstance(n, ast.For) and fa.sym.canon(n.iter) == "self._rebalancing.items()" and isinstance(n.target, ast.Tuple) and len(n.target.elts) == 2 and all(isinstance(e, ast.Name) for e in n.target.elts):
+            return n, n.target.elts[0].id, n.target.elts[1].id
+    return None, None, None
+
+
+def _keyed_stores(fa, loop):
+    """`container[<the entry's time>] = value` statements of the loop: (stmt, container name, value id of the value)."""
+    T = loop_item(fa, loop, 0)
+    out = []
+    for s in ast.walk(loop):
+        if isinstance(s, ast.Assign) and len(s.targets) == 1 and isinstance(s.targets[0], ast.Subscript) and isinstance(s.targets[0].value, ast.Name) and fa.sym.canon(s.targets[0].slice) == T.key():
+            out.append((s, s.targets[0].value.id, fa.sym.canon(s.value)))
+    return out
+
+
 def s7(ck, an):
-    # net_liquidation_value / weights_actual: context selected by the flag
+    # net_liquidation_value / weights_actual: context selected by the flag; value ids, so spelling / statement form do not matter
     for short, field in (("TrackRecord.net_liquidation_value", "nlv"), ("TrackRecord.weights_actual", "weights")):
         fa = an.fa(short)
         flag = "before_rebalancing"
-        ok_pre = ok_post = ok_field = False
-        for s in all_stmts(fa):
-            if isinstance(s, ast.Assign) and isinstance(s.targets[0], ast.Name) and isinstance(s.value, ast.Attribute) and s.value.attr in ("context_pre", "context_post"):
-                sg = fa.syntactic_guards(s)
-                pol = [p[2] for p in sg if p[0] == "truthy" and p[1] == flag]
-                if s.value.attr == "context_pre" and pol == [True]:
-                    ok_pre = True
-                if s.value.attr == "context_post" and pol == [False]:
-                    ok_post = True
-            if isinstance(s, ast.Assign) and isinstance(s.targets[0], ast.Subscript) and isinstance(s.value, ast.Attribute) and s.value.attr == field and ast.unparse(s.targets[0].slice) == "time":
-                ok_field = True
-            if isinstance(s, ast.Assign) and isinstance(s.value, ast.IfExp):
-                v = s.value
-                if ast.unparse(v.test) == flag and ast.unparse(v.body).endswith("context_pre") and ast.unparse(v.orelse).endswith("context_post"):
-                    ok_pre = ok_post = True
-        ck.check(ok_pre and ok_post, "GUARD", f"S7.{field}-pre-post-selection", fa.f.short, fa.f.loc, "before_rebalancing selects context_pre, otherwise context_post",
-                 "the pre/post snapshot selection is swapped or missing", construct="if before_rebalancing: context = rebalancing.context_pre else: context_post")
+        loop, tname, rname = _entries_loop(fa)
+        stores = _keyed_stores(fa, loop) if loop is not None else []
+        ok_sel = ok_field = False
+        if len(stores) == 1:
+            st_, _, got = stores[0]
+            at = fa.node_of(st_).id
+            want = specv(fa, f"({rname}.context_pre if {flag} else {rname}.context_post).{field}", at).key()
+            swapped = specv(fa, f"({rname}.context_post if {flag} else {rname}.context_pre).{field}", at).key()
+            ok_sel = got == want
+            ok_field = got in (want, swapped) or got.endswith(f".{field}")
+        ck.check(ok_sel, "GUARD", f"S7.{field}-pre-post-selection", fa.f.short, fa.f.loc, "before_rebalancing selects context_pre, otherwise context_post",
+                 f"the value reported per entry is {[g for _, _, g in stores]}: the pre/post snapshot selection is swapped or missing", construct="if before_rebalancing: context = rebalancing.context_pre else: context_post")
         ck.check(ok_field, "DEP", f"S7.{field}-field", fa.f.short, fa.f.loc, f"the series reports context.{field} keyed by the entry's time", f"the series does not report context.{field} per time",
                  construct=f"data[time] = context.{field}")
         d = fa.f.param_default(flag)
         ck.check(isinstance(d, ast.Constant) and d.value is True, "CONST", f"S7.{field}-default-pre", fa.f.short, fa.f.loc, "by default the pre-trade values are reported", f"default of {flag} is {ast.unparse(d) if d else None}",
                  construct=f"{flag}=True")
     fa = an.fa("TrackRecord.weights_target")
-    ok = any(isinstance(s, ast.Assign) and isinstance(s.targets[0], ast.Subscript) and ast.unparse(s.value) == "rebalancing.allocation" for s in all_stmts(fa))
-    ck.check(ok, "DEP", "S7.target-weights-field", fa.f.short, fa.f.loc, "target weights report rebalancing.allocation", "weights_target does not report rebalancing.allocation", construct="data[time] = rebalancing.allocation")
+    loop, tname, rname = _entries_loop(fa)
+    stores = _keyed_stores(fa, loop) if loop is not None else []
+    ok = len(stores) == 1 and stores[0][2] == specv(fa, f"{rname}.allocation", fa.node_of(stores[0][0]).id).key()
+    ck.check(ok, "DEP", "S7.target-weights-field", fa.f.short, fa.f.loc, "target weights report rebalancing.allocation", f"weights_target reports {[g for _, _, g in stores]}", construct="data[time] = rebalancing.allocation")
     fa = an.fa("TrackRecord.transaction_costs")
-    want = {"profit_on_idle_cash": "rebalancing.profit_on_idle_cash", "cost_of_spread": "sum((trade.cost_of_spread for trade in rebalancing.trades))", "cost_of_commissions": "sum((trade.cost_of_commissions for trade in rebalancing.trades))"}
-    for name, w in want.items():
-        got = [ast.unparse(s.value) for s in all_stmts(fa) if isinstance(s, ast.Assign) and isinstance(s.targets[0], ast.Subscript) and ast.unparse(s.targets[0].value) == name]
-        ck.check(got == [w], "DEP", f"S7.costs-{name}", fa.f.short, fa.f.loc, f"{name} reports {w}", f"{name} reports {got}", construct=f"{name}[time] = ...")
+    loop, tname, rname = _entries_loop(fa)
+    stores = _keyed_stores(fa, loop) if loop is not None else []
+    # which column each container becomes: pd.Series(<container>).to_frame(<label>)
+    label_of = {}
+    for c in walk_function(fa.f.node):
+        if isinstance(c, ast.Call) and isinstance(c.func, ast.Attribute) and c.func.attr == "to_frame" and c.args and isinstance(c.args[0], ast.Constant) and isinstance(c.func.value, ast.Call) \
+                and c.func.value.args and isinstance(c.func.value.args[0], ast.Name):
+            label_of[c.func.value.args[0].id] = c.args[0].value
+    got_by_label = {label_of.get(cn, cn): g for _, cn, g in stores}
+    want = {"profit_on_idle_cash": ("Profit on idle Cash", "{r}.profit_on_idle_cash"), "cost_of_spread": ("Spread", "sum(t.cost_of_spread for t in {r}.trades)"),
+            "cost_of_commissions": ("Broker fees", "sum(t.cost_of_commissions for t in {r}.trades)")}
+    for name, (label, form) in want.items():
+        w = specv(fa, form.format(r=rname), fa.node_of(loop.body[0]).id).key() if loop is not None else "?"
+        ck.check(got_by_label.get(label) == w, "DEP", f"S7.costs-{name}", fa.f.short, fa.f.loc, f"column '{label}' reports {form.format(r='entry')} per entry", f"column '{label}' reports {got_by_label.get(label)}; expected {w}",
+                 construct=f"{name}[time] = ...")
     # optional post-processing happens only when asked for
     for short in ("TrackRecord.net_liquidation_value", "TrackRecord.weights_actual", "TrackRecord.weights_target", "TrackRecord.transaction_costs"):
         fa = an.fa(short)
